@@ -264,7 +264,11 @@ func envRun(r *h.Run, fam string, cfg envCfg, parseOK bool, chunks [][]byte, fin
 		r.Fail(h.Failure{Key: "envelope/ran-twice", Family: fam, What: "user code ran more than once", Input: h.Hex(flat)})
 	}
 	r.Sample(fam, map[string]any{"cfg": cfg, "body_hex": h.Hex(flat), "chunk_sizes": chunkSizes(chunks), "fin": fin.Coq(), "observed": obsStrings(obs), "what": desc})
-	if model && calls == 1 {
+	obsBytes := 0
+	for _, o := range obs {
+		obsBytes += len(o.B)
+	}
+	if model && calls == 1 && obsBytes <= 8192 {
 		items := make([]string, len(obs))
 		for i, o := range obs {
 			items[i] = o.coq()
@@ -292,7 +296,7 @@ func envRunUnary(r *h.Run, fam string, cfg envCfg, chunks [][]byte, fin h.FinKin
 		r.Fail(h.Failure{Key: "envelope/ran-twice", Family: fam, What: "user code ran more than once", Input: h.Hex(flat)})
 	}
 	r.Sample(fam, map[string]any{"cfg": cfg, "body_hex": h.Hex(flat), "chunk_sizes": chunkSizes(chunks), "fin": fin.Coq(), "observed": obs.String(), "what": desc})
-	if model {
+	if model && len(obs.B) <= 4096 { // (a toy-RLE body may expand a hundredfold: such a case is one term too large for coqc's stack)
 		r.Case(fam, fmt.Sprintf("HUnary %d %s %s %s (%s)", cfg.Max, cfg.coqAlgo(), h.CoqBytesList(chunks), fin.Coq(), obs.coq()),
 			map[string]any{"cfg": cfg, "body_hex": h.Hex(flat), "chunk_sizes": chunkSizes(chunks), "fin": fin.Coq(), "impl_observed": obs.String(), "what": desc})
 	}
@@ -360,7 +364,8 @@ func genBody(rng *h.Rng, cfg envCfg, nmsgs int, malformed bool, small bool) (bod
 		fl := []byte{0x02, 0x03, 0x80, 0x81, 0x04, 0x40, 0x82, 0xff}[rng.Intn(8)]
 		pay := []byte("{}")
 		parseOK = true
-		if fl&0x80 != 0 && fl&0x02 == 0 {
+		if (fl&0x80 != 0 && fl&0x02 == 0) || (cfg.Proto == "grpcweb" && fl&0x80 != 0) {
+			// (gRPC-Web reads a frame with the trailer bit as a header block, whatever other bits are set)
 			pay = []byte("grpc-status: 0\r\n")
 		}
 		if rng.Intn(3) == 0 {
